@@ -29,6 +29,7 @@ from vlib.sched import aio
 from vlib.sched import threads as TS
 
 LEVEL = 'exploration'
+K_FIND_TEAR = 'dynamic-add-route-tears-finder-and-side-tables'
 SHARDS = {'quick': 4, 'thorough': 16}
 BUDGET = {'quick': 20, 'thorough': 170}
 
@@ -209,7 +210,7 @@ def build_app(asgi=False, flaky=False, variant=0):
                 class Dyn:
                     async def on_get(self, req, resp):
                         resp.media = common(req, 'dyn', made_by=tok)
-            app.add_route('/dyn/' + tok, Dyn())
+            app.add_route('/items/dyn-' + tok, Dyn())   # a literal under /items: shifts the finder's side tables
         elif what == 'handler':
             app.resp_options.media_handlers[falcon.MEDIA_JSON] = falcon.media.JSONHandler(dumps=marker_dumps(tok))
 
@@ -288,7 +289,7 @@ def gen_requests(rng, n, with_flaky=False, admin=False):
             path = '/admin/' + kind.split('-')[1]
         elif kind == 'dyn':
             # a route that exists only after some admin-route request of this set was processed
-            path = '/dyn/@ADMIN@'
+            path = '/items/dyn-@ADMIN@'
         else:
             path = '/nothing/%s' % tok
         reqs.append({'method': method, 'path': path, 'query': q, 'headers': headers, 'body': body})
@@ -404,8 +405,17 @@ def run_controlled(rec, sched, build, reqs, chooser, phase, accept=None, ref_bui
     wit = {'phase': phase, 'requests': [dict(r, body=r['body'].decode()) for r in reqs]}
     # observe where the other workers stand whenever somebody is scheduled (floors)
     orig = chooser
+    preempted_in_router_find = set()      # workers switched away from while between the lines of CompiledRouter.find()
 
     def watching(s, runnable, cur):
+        nxt = _watching(s, runnable, cur)
+        for w in s.workers:
+            if w['idx'] != nxt and w['state'] in ('parked',) and w['where'] and w['where'][0] == 'find' \
+                    and w['where'][2].endswith('falcon/routing/compiled.py'):
+                preempted_in_router_find.add(w['idx'])
+        return nxt
+
+    def _watching(s, runnable, cur):
         names = [w['where'][0] for w in s.workers if w['state'] in ('parked', 'blocked') and w['where']]
         if sum(1 for n in names if n in ('_compile_and_find', '_compile')) >= 2 or \
                 (any(w['state'] == 'blocked' for w in s.workers)):
@@ -427,7 +437,17 @@ def run_controlled(rec, sched, build, reqs, chooser, phase, accept=None, ref_bui
     if vec not in accept:
         wit.update(trace=[t[0] for t in sched.trace if t[1] == 'run'][:600], got=vec,
                    serial=sorted(accept, key=repr)[0])
-        rec.violation('not-serializable', wit)
+        known = None
+        adds_route = any(r['path'] == '/admin/route' for r in reqs)
+        if adds_route:
+            # narrow classifier: every request that differs from every serial outcome was switched away from while
+            # standing between the lines of CompiledRouter.find() (finder loaded, side tables not yet) and a route
+            # was added at run time by another request of the set
+            differing = [i for i in range(len(reqs)) if all(vec[i] != a[i] for a in accept)]
+            if differing and all(i in preempted_in_router_find for i in differing):
+                known = K_FIND_TEAR
+        wit.update(preempted_in_router_find=sorted(preempted_in_router_find))
+        rec.violation('not-serializable', wit, known_key=known)
     return vec
 
 
@@ -592,7 +612,7 @@ def run(rec):
             ['DELETE /items/1/a', 'DELETE /items/2/b'],
         ]
         if not quick:
-            rsets += [['GET /dyn/@', 'POST /admin/route', 'GET /items/9/z']]
+            rsets += [['GET /items/dyn-@', 'POST /admin/route', 'GET /items/9/z']]
         for ri, spec in enumerate(rsets):
             reqs = []
             for j, line in enumerate(spec):
